@@ -73,6 +73,7 @@ func runC16(c *core.Ctx) {
 	c16R1(c)
 	c16R2(c)
 	c16R4(c)
+	c16R5(c)
 }
 
 // originOf names where a value comes from: a struct field, a constant or an expression.
@@ -931,4 +932,194 @@ func isErrorReturn(i ssa.Instruction) bool {
 		}
 	}
 	return false
+}
+
+// c16R5: a length guard in a packet decoder must not be stricter than the standard. For an
+// `if len(data) < start+k { return error }` placed in front of the read that starts at
+// `start`, k may not exceed the number of bytes the mandatory fields still to come occupy at
+// least (u8 1, u16 2, string 2 — an empty string is legal —, raw 0; optional and repeated
+// fields 0), taken from the MQTT 3.1.1 table. The rule reports only guards it can read
+// completely (other shapes are counted, not judged): it is about rejections of well-formed
+// packets, e.g. `<=` for `<`, which make a CONNECT with an empty client id undecodable.
+func c16R5(c *core.Ctx) {
+	rule := "C16.R5"
+	c.Rule(rule, "length guards in packet decoders reject only packets shorter than the mandatory fields that follow (MQTT 3.1.1 minimum sizes); expected today: no guard, the overlay mutant C16-connect-guard-off-by-one is the positive example", 1)
+	width := map[string]int64{"u8": 1, "u16": 2, "str": 2, "raw": 0}
+	nGuards, nJudged, nDec := 0, 0, 0
+	for t, want := range mqttLayout {
+		if t == "Connack" {
+			continue
+		}
+		dec := c.P.Func("internal/network/mqtt", "", "decode"+t)
+		if dec == nil || dec.Blocks == nil {
+			continue
+		}
+		nDec++
+		data := ssa.Value(dec.Params[0])
+		dops := decoderLayout(dec)
+		isRead := map[ssa.Instruction]bool{}
+		for _, o := range dops {
+			isRead[o.in] = true
+		}
+		lenOfData := func(v ssa.Value) bool {
+			b, ok := eng.LenOf(eng.StripConv(v))
+			return ok && b == data
+		}
+		for _, b := range dec.Blocks {
+			iff, ok := b.Instrs[len(b.Instrs)-1].(*ssa.If)
+			if !ok {
+				continue
+			}
+			cond := iff.Cond
+			neg := false
+			for {
+				if u, ok := cond.(*ssa.UnOp); ok && u.Op == token.NOT {
+					cond, neg = u.X, !neg
+					continue
+				}
+				break
+			}
+			bo, ok := cond.(*ssa.BinOp)
+			if !ok {
+				continue
+			}
+			op := bo.Op
+			var e ssa.Value
+			switch {
+			case lenOfData(bo.X):
+				e = bo.Y
+			case lenOfData(bo.Y):
+				e = bo.X
+				switch op { // mirror: E op len  ==  len op' E
+				case token.LSS:
+					op = token.GTR
+				case token.LEQ:
+					op = token.GEQ
+				case token.GTR:
+					op = token.LSS
+				case token.GEQ:
+					op = token.LEQ
+				}
+			default:
+				continue
+			}
+			// which successor rejects?
+			rejects := func(s *ssa.BasicBlock) bool {
+				for _, in := range s.Instrs {
+					if isRead[in] {
+						return false
+					}
+				}
+				ret, ok := s.Instrs[len(s.Instrs)-1].(*ssa.Return)
+				return ok && isErrorReturn(ret)
+			}
+			r0, r1 := rejects(b.Succs[0]), rejects(b.Succs[1])
+			if r0 == r1 {
+				continue
+			}
+			nGuards++
+			condTrueRejects := r0 != neg // Succs[0] is taken when the (un-negated) condition is true
+			if !condTrueRejects {
+				switch op { // reject on false: negate the relation
+				case token.LSS:
+					op = token.GEQ
+				case token.LEQ:
+					op = token.GTR
+				case token.GTR:
+					op = token.LEQ
+				case token.GEQ:
+					op = token.LSS
+				default:
+					continue
+				}
+			}
+			extra := int64(0)
+			switch op {
+			case token.LSS:
+			case token.LEQ:
+				extra = 1
+			default:
+				continue // an upper bound, not a minimum-length guard
+			}
+			// E = X + k | k
+			e = eng.StripConv(e)
+			var x ssa.Value
+			k, isC := eng.ConstInt(e)
+			if !isC {
+				if add, ok := e.(*ssa.BinOp); ok && add.Op == token.ADD {
+					if kk, ok := eng.ConstInt(add.Y); ok {
+						x, k, isC = eng.StripConv(add.X), kk, true
+					} else if kk, ok := eng.ConstInt(add.X); ok {
+						x, k, isC = eng.StripConv(add.Y), kk, true
+					}
+				} else {
+					x, k, isC = e, 0, true
+				}
+			}
+			if !isC {
+				continue
+			}
+			// reads before the guard, and the start of the next read
+			p := 0
+			for _, o := range dops {
+				if eng.Dominates(o.in, iff) {
+					p++
+				}
+			}
+			if p >= len(dops) || p >= len(want) {
+				continue
+			}
+			var start ssa.Value
+			switch y := dops[p].in.(type) {
+			case *ssa.UnOp:
+				if ia, ok := y.X.(*ssa.IndexAddr); ok {
+					start = ia.Index
+				}
+			case *ssa.Call:
+				for _, a := range eng.CallArgs(&y.Call) {
+					if sl, ok := a.(*ssa.Slice); ok && sl.X == data {
+						start = sl.Low
+					}
+				}
+			}
+			rel := int64(-1)
+			if x == nil {
+				if start == nil {
+					rel = k // absolute guard in front of a read that starts at 0
+				} else if s, ok := eng.ConstInt(start); ok {
+					rel = k - s
+				}
+			} else if start != nil && eng.SameValue(eng.StripConv(start), x) {
+				rel = k
+			}
+			if rel < 0 {
+				continue
+			}
+			nJudged++
+			need := rel + extra
+			var min int64
+			for _, fld := range want[p:] {
+				if strings.HasPrefix(fld, "loop:") {
+					continue
+				}
+				parts := strings.SplitN(fld, ":", 2)
+				if _, optional := mqttGuards[t][parts[1]]; optional {
+					continue
+				}
+				min += width[parts[0]]
+			}
+			key := fmt.Sprintf("%s:length guard before %s", t, want[p])
+			if need > min {
+				c.Fail(rule, key, iff.Pos(), fmt.Sprintf("decode%s rejects packets with fewer than %d bytes left at this point, but the mandatory fields still to come (%s) occupy as little as %d bytes in a well-formed MQTT 3.1.1 packet (empty strings are legal): such packets are refused although the standard accepts them", t, need, strings.Join(want[p:], ", "), min))
+			} else {
+				c.OK(rule, key, iff.Pos(), fmt.Sprintf("requires %d bytes, the mandatory fields need at least %d", need, min))
+			}
+		}
+	}
+	c.Count("decoders_analysed", nDec)
+	c.Count("length_guards_found", nGuards)
+	c.Count("length_guards_judged", nJudged)
+	if nJudged == 0 {
+		c.OK(rule, "no over-strict length guard", token.NoPos, fmt.Sprintf("%d decoders, %d length guards found, none that rejects a well-formed packet", nDec, nGuards))
+	}
 }
